@@ -11,6 +11,7 @@ def C01_units : List (String × String) := [
   ("sanitize.go/func/*Policy.sanitize/case:html.StartTagToken", "06e5b6a502de1bc0"),
   ("sanitize.go/func/*Policy.sanitize/case:html.EndTagToken", "13ba196cca634709"),
   ("sanitize.go/func/*Policy.sanitize/case:html.SelfClosingTagToken", "579a9bca378883dd"),
+  ("sanitize.go/func/*Policy.sanitize/around-switch", "cd2e2ace16007f49"),
   ("sanitize.go/func/*Policy.matchRegex", "2e064bc838cea7fd"),
   ("sanitize.go/func/normaliseElementName", "2bf67939cdf5b934")
 ]
